@@ -49,6 +49,23 @@ package freelist
 //@   loop 0 invariant [same] len(t.readonlyTXIDs) == old(len(t.readonlyTXIDs)) && arrayof(t.readonlyTXIDs) == old(arrayof(t.readonlyTXIDs)) && offof(t.readonlyTXIDs) == old(offof(t.readonlyTXIDs))
 //@   loop 0 invariant [sameelems] forall j int :: 0 <= j && j < len(t.readonlyTXIDs) ==> t.readonlyTXIDs[j] == old(t.readonlyTXIDs[j])
 
+//@ func (*shared).release
+//@   props C09 C10 C02
+//@   requires t.pending != nil && (forall tid common.Txid :: has(t.pending, tid) ==> t.pending[tid] != nil)
+//@   ensures [removed] forall tid common.Txid :: has(t.pending, tid) == (old(has(t.pending, tid)) && tid > txid)
+//@   ensures [keptobj] forall tid common.Txid :: has(t.pending, tid) ==> t.pending[tid] == old(t.pending[tid])
+//@   ensures [safe] forall p common.Pgid :: gfree[ifaceref(t.Interface)][p] && !old(gfree[ifaceref(t.Interface)][p]) ==> (exists wt common.Txid :: wt <= txid && old(inpend(t, wt, p)))
+//@   ensures [complete] forall tid common.Txid, j int :: tid <= txid && old(has(t.pending, tid)) && 0 <= j && j < old(len(t.pending[tid].ids)) ==> gfree[ifaceref(t.Interface)][old(t.pending[tid].ids[j])]
+//@   ensures [freekept] forall p common.Pgid :: old(gfree[ifaceref(t.Interface)][p]) ==> gfree[ifaceref(t.Interface)][p]
+//@   loop 0 invariant [dom] forall tid common.Txid :: has(t.pending, tid) == (old(has(t.pending, tid)) && !(visited(tid) && tid <= txid))
+//@   loop 0 invariant [vals] forall tid common.Txid :: old(has(t.pending, tid)) ==> t.pending[tid] == old(t.pending[tid])
+//@   loop 0 invariant [vis] forall tid common.Txid :: visited(tid) ==> old(has(t.pending, tid))
+//@   loop 0 invariant [msafe] forall k int :: 0 <= k && k < len(m) ==> (exists wt common.Txid :: wt <= txid && old(inpend(t, wt, m[k])))
+//@   loop 0 invariant [mcomplete] forall tid common.Txid, j int :: visited(tid) && tid <= txid && 0 <= j && j < old(len(t.pending[tid].ids)) ==> inids(m, old(t.pending[tid].ids[j]))
+//@   loop 0 invariant [mfresh] fresh(arrayof(m)) && len(m) >= 0
+//@   loop 0 invariant [same] sameheap("txPending.ids") && gfree == old(gfree) && t.Interface == old(t.Interface)
+//@   loop 0 invariant [oldelems] sameelems("common.Pgid")
+
 //@ func (*shared).Free
 //@   props C09 C06 C07 C01
 //@   requires t.pending != nil && t.cache != nil && t.allocs != nil
@@ -124,6 +141,10 @@ package freelist
 //@ func Interface.Free
 //@   requires p != nil
 //@   modifies allmaps("common.Txid", "*txPending"), allmaps("common.Pgid", "common.Txid"), allmaps("common.Pgid", "struct{}"), all("txPending.ids"), all("txPending.alloctx"), all("txPending.lastReleaseBegin"), allelems("common.Pgid"), allelems("common.Txid")
+
+//@ func Interface.mergeSpans
+//@   ensures [merged] forall p common.Pgid :: gfree[ifaceref(self)][p] == (old(gfree[ifaceref(self)][p]) || old(inids(ids, p)))
+//@   modifies gfree, elems(ids), all("array.ids"), all("hashMap.freePagesCount"), allmaps("uint64", "freelist.pidSet"), allmaps("common.Pgid", "uint64")
 
 //@ func Interface.Write
 //@   requires page != nil
